@@ -16,6 +16,7 @@ using Gen = BSplineGenerator<double>;
 #define W extern "C" __attribute__((noinline))
 
 // freshly constructed (interval-free) objects: used by the harness to learn the initial bytes of any member it does not know
+W void w_mk_grid2(void *mem) { new (mem) Gr(std::vector<double>{0.0, 1.0}); }
 W void w_mk_empty1(void *mem, const Gr *g) { new (mem) S1(*g); }
 W void w_mk_empty2(void *mem, const Gr *g) { new (mem) S2(*g); }
 W double w_eval(const S2 *s, double x) { return (*s)(x); }
